@@ -23,6 +23,9 @@ CHECKS = {
  'C06': dict(level='exploration', design='3/C06', technique='runtime monitor at the transport boundary: request MACs recomputed with python hmac; exhaustive single-bit-flip / truncation / splice delivery test of authentic responses through every client',
    text='Every request PDU seen at the simulated transport (sign, extend, config; blocking HTTP/TCP, async TCP/HTTP, HA; PDU v1/v2; keys of 1..65535 bytes; UTF-8 login ids; SHA-256/384/512/RIPEMD-160) is parsed by the reference and its MAC recomputed over the authenticated range. For responses an authentic reply from the reference server must be delivered, and every single-bit flip of it (all bits on the blocking transports, 160 sampled bits per response on async/HA), every truncation point sampled, splices, other key/algorithm/version, missing header/MAC, element after the MAC and a MAC over a wrong range must deliver nothing (v1: or exactly the honest content); SHA-1 as MAC algorithm must be refused before sending.',
    note='Trusts python hmac/hashlib, the simulated transports and the reference PDU builder.'),
+ 'C13': dict(level='exploration', design='3/C13', technique='online trace monitor (sequential model of the async service) over exhaustive short and random long schedules on a simulated socket layer with a virtual clock',
+   text='Schedules over {add, run, valid/duplicate/reordered/early reply, unknown id, stale id generation, bad MAC, error status, error PDU, pushed config, partial delivery, close/reset, refused connect, would-block on send, clock advance} drive the real asynchronous TCP service; every request has a unique tag and hash. The monitor checks online: returned exactly once and in a final state; a response only if an authentic status-0 reply with its own id was put on the wire, with its own id and a signature for its own hash; an error only if a justifying event (service status, error PDU, malformed/unauthenticated data, close/reset/refusal, elapsed timeout) occurred; cache-full iff outstanding = cache size; pending+received and the waiting count equal the number of outstanding requests; the request byte stream on every connection is a sequence of whole, authentic request PDUs; bounded progress after faults stop. Exhaustive for all schedules of length 3 (quick) / 4 (thorough) after an add, random schedules up to 200 steps with cache sizes 1..64.',
+   note='Justifying events are attributed liberally (a fault on the connection justifies an error of any request outstanding until the client has worked the faulty PDUs off), so the monitor is sound but not tight for error causes. HTTP async service is exercised at request granularity in C07/C08/C06.'),
 }
 NOT_YET = 'check not built yet in this session (planned in DESIGN.md section 3)'
 
